@@ -149,6 +149,11 @@ EVERY = [
     'x=t[a+b] f(a+b,c*d) t={a+b,[c+d]=e+f,g=h+i} local y,z=a+b,c+d\n'
     'x,y=a+b,c+d x+=a+b\nreturn a+b,c+d\n',
     'x=-a+b x=not a+b x=#a+b x=(a+b)+c x=f(a)+b x=a.b+c x=a[b]+c\n',
+    # string literals that spell a constant; a short if that ends the
+    # then-block of a long if whose else follows on a later line
+    'x="nil" y={"true",\'false\'} z=type(v)=="nil" w=[[nil]]\n',
+    'if a then\n if (b) x=1\nelse\n y=2\nend\nif a then\n if (b) x=1\n'
+    'elseif c then\n y=2\nend\n',
     # statements that begin with a parenthesised prefix expression
     '(f or g)(x)\n("abc"):rep(3)\n(t).n=5 (t)[1],(u).v=1,2\n'
     '(function() end)()\ndo (a)() end\n',
